@@ -99,15 +99,15 @@ fn run_sop<F: Fl>(w: &World<F>, s: &SOp) {
             let _ = (F::edges_out(n(u)), F::edges_in(n(u)));
         }
         SOp::NestedBfs(u, t) => {
-            let cfg = Cfg { kind: Kind::Bfs, transpose: false, target: Some(t), meth: Meth::None, res: ResK::Search, alt: false };
+            let cfg = Cfg { kind: Kind::Bfs, transpose: false, target: Some(t), meth: Meth::None, res: ResK::Search, alt: false, tt: false };
             let _ = F::search(n(u), &cfg, &mut |_| true);
         }
         SOp::NestedOther(u, t) => {
             for kind in [Kind::Dfs, Kind::PfsMin] {
-                let cfg = Cfg { kind, transpose: false, target: Some(t), meth: Meth::None, res: ResK::Path, alt: false };
+                let cfg = Cfg { kind, transpose: false, target: Some(t), meth: Meth::None, res: ResK::Path, alt: false, tt: false };
                 let _ = F::search(n(u), &cfg, &mut |_| true);
             }
-            let cfg = Cfg { kind: Kind::Pre, transpose: false, target: None, meth: Meth::None, res: ResK::Nodes, alt: false };
+            let cfg = Cfg { kind: Kind::Pre, transpose: false, target: None, meth: Meth::None, res: ResK::Nodes, alt: false, tt: false };
             let _ = F::search(n(u), &cfg, &mut |_| true);
         }
         SOp::CloneDrop(u) => {
@@ -151,15 +151,15 @@ pub fn loop_kinds(directed: bool, n: usize, root: K) -> Vec<LoopKind> {
             for meth in [Meth::ForEach, Meth::Filter] {
                 if kind.is_order() {
                     for res in [ResK::Nodes, ResK::Edges] {
-                        v.push(LoopKind::Traversal(Cfg { kind, transpose, target: None, meth, res, alt: false }));
+                        v.push(LoopKind::Traversal(Cfg { kind, transpose, target: None, meth, res, alt: false, tt: false }));
                     }
                 } else {
                     for t in &targets {
-                        v.push(LoopKind::Traversal(Cfg { kind, transpose, target: *t, meth, res: ResK::Path, alt: false }));
+                        v.push(LoopKind::Traversal(Cfg { kind, transpose, target: *t, meth, res: ResK::Path, alt: false, tt: false }));
                         // search() runs through helpers of its own in the library
-                        v.push(LoopKind::Traversal(Cfg { kind, transpose, target: *t, meth, res: ResK::Search, alt: false }));
+                        v.push(LoopKind::Traversal(Cfg { kind, transpose, target: *t, meth, res: ResK::Search, alt: false, tt: false }));
                     }
-                    v.push(LoopKind::Traversal(Cfg { kind, transpose, target: None, meth, res: ResK::Cycle, alt: false }));
+                    v.push(LoopKind::Traversal(Cfg { kind, transpose, target: None, meth, res: ResK::Cycle, alt: false, tt: false }));
                 }
             }
         }
@@ -455,7 +455,7 @@ fn owned_sweep<F: Fl>(job: &Job, p: &LParams, out: &mut Out) {
             for lk in loop_kinds(F::DIRECTED, p.n, root) {
                 let base = OCase { n: p.n, conns: conns.clone(), root, lk, step: EVERY, victim: 0 };
                 out.stats.inc("evaluations");
-                let mut report = |out: &mut Out, c: &OCase, class: String, what: String| {
+                let report = |out: &mut Out, c: &OCase, class: String, what: String| {
                     out.report(Violation {
                         property: prop.into(),
                         engine: "loopx".into(),
